@@ -65,6 +65,7 @@ theorem validateTransaction_ok {ms : Mid} {t : Txn1} {pid : Id} {mw : Nat} (h : 
   split at h
   · rw [bind_eq_ok] at h; obtain ⟨_, hr, _⟩ := h; cases hr
   · rw [bind_eq_ok] at h; obtain ⟨_, _, h⟩ := h
+    rw [bind_eq_ok] at h; obtain ⟨_, _, h⟩ := h
     split at h
     · rw [bind_eq_ok] at h; obtain ⟨_, hr, _⟩ := h; cases hr
     · rw [bind_eq_ok] at h; obtain ⟨_, _, h⟩ := h
@@ -85,7 +86,7 @@ theorem validateSignatures_ok {t : Txn1} (h : validateSignatures t = .ok ()) :
 def Txn1.payouts (t : Txn1) : Nat := (t.fcs.map (·.2.payout)).sum
 
 theorem validateSiacoins1_ok {ms : Mid} {t : Txn1} (h : validateSiacoins ms t = .ok ()) :
-    (∀ sci ∈ t.scIns, ms.isSpent sci.parent = false ∧ ∃ p, ms.scElement t.supp sci.parent = some p) ∧
+    (∀ sci ∈ t.scIns, ms.isSpent sci.parent = false ∧ ∃ p, ms.scElement t.supp sci.parent = some p ∧ p.maturity ≤ ms.base.child) ∧
     (t.scIns.map (scInVal ms t.supp)).sum = (t.scOuts.map (·.2.value)).sum + t.payouts + t.fees.sum := by
   unfold validateSiacoins at h
   rw [bind_eq_ok] at h; obtain ⟨inS, hin, h⟩ := h
@@ -104,7 +105,7 @@ theorem validateSiacoins1_ok {ms : Mid} {t : Txn1} (h : validateSiacoins ms t = 
     · cases hh; rfl
     · cases hh) _ _ _ ho3
   have e0 := foldlM_sum_P _ (scInVal ms t.supp)
-    (fun sci => ms.isSpent sci.parent = false ∧ ∃ p, ms.scElement t.supp sci.parent = some p) (by
+    (fun sci => ms.isSpent sci.parent = false ∧ ∃ p, ms.scElement t.supp sci.parent = some p ∧ p.maturity ≤ ms.base.child) (by
     intro s x r hh
     split at hh
     · cases hh
@@ -119,10 +120,11 @@ theorem validateSiacoins1_ok {ms : Mid} {t : Txn1} (h : validateSiacoins ms t = 
           · cases hh
           · split at hh
             · cases hh
-            · split at hh
+            · rename_i hmat
+              split at hh
               · cases hh
                 rw [hp]; simp only []
-                exact ⟨by first | rfl | trivial, by simpa using hsp, p, rfl⟩
+                exact ⟨by first | rfl | trivial, by simpa using hsp, p, rfl, Nat.le_of_not_lt hmat⟩
               · cases hh) _ _ _ hin
   refine ⟨e0.2, ?_⟩
   have e0' := e0.1
